@@ -19,7 +19,9 @@
 //!   `h<i>`        from now on node i alone does not answer `USE` (its pool's USE times out after `ct` ms while the other
 //!                 nodes acknowledge; its connections stay published); `t0` ends it
 //!   `t1` / `t0`   from now on the nodes do not answer `USE` at all (the call times out after `ct` ms) / normally again
-//!   `q<k>`        k requests, one after another
+//!   `q<k>`        k requests, one after another      `g<i>`  two requests TARGETED at node i (single-target policy)
+//!   `r`           Session::prepare of a fresh statement: every PREPARE frame is judged like a request
+//! `zt=<mask>`: bit i = node i owns NO tokens (known and pooled, outside the ring; only targeted requests reach it).
 //!   `c<k>`        k requests concurrently
 //!   `xa<k>`/`xb<k>` use_keyspace CONCURRENTLY with k requests
 //!   `k<i>`        node i closes all its pool connections;  `K` every node does
@@ -200,7 +202,9 @@ pub fn generate(rng: &mut Rng, tier: Tier, emit: &mut dyn FnMut(String)) {
         ops.push(if rng.chance(1, 4) { format!("xa{}", 2 + rng.below(4)) } else { "ua".into() });
         let len = 3 + rng.below(6);
         for _ in 0..len {
-            let op = match rng.below(12) {
+            let op = match rng.below(15) {
+                12 | 13 => format!("g{}", rng.below(nodes)),
+                14 => "r".to_owned(),
                 0 | 1 => format!("q{}", 1 + rng.below(4)),
                 2 | 3 => format!("c{}", 2 + rng.below(6)),
                 4 | 5 => format!("k{}", rng.below(nodes)),
@@ -223,9 +227,24 @@ pub fn generate(rng: &mut Rng, tier: Tier, emit: &mut dyn FnMut(String)) {
         }
         ops.push("w".into());
         ops.push("c6".into());
+        // every third cluster of two or more nodes has token-less nodes (one initial node keeps its tokens; a node that
+        // joins may be token-less too): every one of them is targeted at the end
+        let mut zt = String::new();
+        if n >= 2 && rng.chance(1, 3) {
+            let keep = rng.below(n);
+            let mask = (1 + rng.below((1 << nodes) - 1)) & !(1u64 << keep);
+            if mask != 0 {
+                zt = format!(" zt={}", mask);
+                for i in (0..nodes).filter(|i| mask >> i & 1 == 1) {
+                    ops.push(format!("g{}", i));
+                }
+                ops.push("r".into());
+            }
+        }
         emit(format!(
-            "e2e keyspace n={} sh={} cs={} udelay={} seed={} ops={}",
+            "e2e keyspace n={}{} sh={} cs={} udelay={} seed={} ops={}",
             n,
+            zt,
             *rng.pick(&[0u64, 0, 2, 3]),
             rng.below(2),
             *rng.pick(&[0u64, 0, 5, 20]),
@@ -310,6 +329,16 @@ pub fn run(words: &[&str], ctx: &mut Ctx) -> String {
     let n = n as usize;
     let shape = Shape { nodes: n, dcs: 1, racks: 1, shards: sh as u16, msb: 12, vnodes: 2, strat: Strat::Simple(1), seed };
     let mut topo = shape.topology();
+    // `zt=<mask>`: bit i = node i owns NO tokens (a coordinator-only node: known and pooled, outside the ring)
+    let Some(zt) = p.num_or("zt", 0) else { return "bad-case".into() };
+    if zt >= 256 || (zt != 0 && (0..n).all(|i| zt >> i & 1 == 1)) {
+        return "bad-case".into();
+    }
+    for (i, node) in topo.nodes.iter_mut().enumerate() {
+        if zt >> i & 1 == 1 {
+            node.tokens.clear();
+        }
+    }
     for k in ["ka", "kb", "Ka"] {
         topo.keyspaces.push(KeyspaceSpec { name: k.into(), replication: simple_strategy(1), tables: vec![std_table()], initial_tablets: None });
     }
@@ -537,6 +566,24 @@ pub fn run(words: &[&str], ctx: &mut Ctx) -> String {
                         held_nodes.lock().unwrap().push(i);
                     }
                 }
+                // two requests TARGETED at node i (SingleTargetLoadBalancingPolicy): the only way to reach a token-less node
+                ("g", Some(i)) if i < 12 => {
+                    use scylla::policies::load_balancing::{NodeIdentifier, SingleTargetLoadBalancingPolicy};
+                    for _ in 0..2 {
+                        let id = submitted.len();
+                        submitted.push(Submitted { allowed: allowed_now.clone(), op: oi });
+                        let mut stmt = scylla::statement::Statement::new(req_text(id));
+                        stmt.set_load_balancing_policy(Some(SingleTargetLoadBalancingPolicy::new(NodeIdentifier::HostId(uuid::Uuid::from_bytes(host_id_of(i))), None)));
+                        results.push(session.query_unpaged(stmt, ()).await.is_ok());
+                    }
+                }
+                // Session::prepare of a fresh statement: its PREPARE frames (one connection of every known node) are
+                // judged like requests - a PREPARE in another keyspace binds the statement to that keyspace
+                ("r", None) => {
+                    let id = submitted.len();
+                    submitted.push(Submitted { allowed: allowed_now.clone(), op: oi });
+                    results.push(session.prepare(req_text(id)).await.is_ok());
+                }
                 ("q", Some(k)) if k <= 64 => results.extend(requests!(k, allowed_now.clone(), false).await),
                 ("c", Some(k)) if k <= 64 => results.extend(requests!(k, allowed_now.clone(), true).await),
                 ("xa", Some(k)) | ("xb", Some(k)) if k <= 64 => {
@@ -579,7 +626,7 @@ pub fn run(words: &[&str], ctx: &mut Ctx) -> String {
                                 host_id: host_id_of(i),
                                 dc: Shape::dc_name(0),
                                 rack: "r1".into(),
-                                tokens,
+                                tokens: if zt >> i & 1 == 1 { vec![] } else { tokens },
                                 shards: if sh == 0 { ShardMode::None } else { ShardMode::ByPort(sh as u16, 12) },
                             })
                             .await;
@@ -597,7 +644,7 @@ pub fn run(words: &[&str], ctx: &mut Ctx) -> String {
         let mut checked = 0;
         let mut frames_seen = 0;
         for f in cluster.user_frames() {
-            let Parsed::Query { text, .. } = &f.parsed else { continue };
+            let (Parsed::Query { text, .. } | Parsed::Prepare { text }) = &f.parsed else { continue };
             let Some(id) = req_id(text) else { continue };
             let Some(sub) = submitted.get(id) else { continue };
             frames_seen += 1;
